@@ -276,6 +276,22 @@ package kv
 //@   ensures only-removed: forall k string :: imp(has(*candidateBlocks, k) && !old(has(*candidateBlocks, k)), removed && typeis(link, string) && k == link.(string))
 //@   ensures kept: forall k string :: imp(old(has(*candidateBlocks, k)), has(*candidateBlocks, k))
 
+// second pass (keepNodesOf): every node of a tree that is kept is withdrawn.
+// The callback is verified; that DiffLinks(nil, f) calls f(false, n) for every
+// node n of the tree is ASSUMED (higher-order dependency).
+//@ func (*DB).getHistoricRootsAndNodes$2$1
+//@   requires candidateBlocks != nil && *candidateBlocks != nil
+//@   modifies contents(*candidateBlocks)
+//@   ensures result0 && result1 == nil
+//@   ensures in-use-withdrawn: imp(!removed && typeis(link, string), !has(*candidateBlocks, link.(string)))
+//@   ensures nothing-added: forall k string :: imp(has(*candidateBlocks, k), old(has(*candidateBlocks, k)))
+
+//@ func (*DB).getHistoricRootsAndNodes$2
+//@   requires m != nil && candidateBlocks != nil && *candidateBlocks != nil && ctx != nil
+//@   modifies contents(*candidateBlocks)
+//@   ensures-assumed nothing-added: forall k string :: imp(has(*candidateBlocks, k), old(has(*candidateBlocks, k)))
+//@   ensures-assumed all-nodes-withdrawn: forall n string :: imp(result == nil && linkIn(*m, n), !has(*candidateBlocks, n))
+
 // the log callback only reports
 //@ func (*DB).getHistoricRootsAndNodes#logFunc
 //@   trusted
@@ -285,6 +301,9 @@ package kv
 //@   requires dbOK(s)
 //@   modifies nothing
 //@   ensures imp(err != nil, len(result0) == 0 && len(result1) == 0)
+// no node of the handle's own tree is offered for deletion
+//@   ensures nodes-unused: forall j int :: imp(err == nil && 0 <= j && j < len(result1), !linkIn(*s.crdt.Mast, result1[j]))
+//@   ensures-local nodes-are-candidates: forall j int :: imp(err == nil && 0 <= j && j < len(result1), has(candidateBlocks, result1[j]))
 //@   ensures-local roots-superseded: forall j int, c string :: imp(err == nil && 0 <= j && j < len(result0) && has(parentToChildren[result0[j]], c), has(parentToChildren, result0[j]) && oldEnough(parentToChildren[result0[j]][c], olderThan))
 //@   loop 1 modifies contents(candidateRoots)
 //@   loop 2 modifies nothing
@@ -298,7 +317,10 @@ package kv
 //@   loop 3 invariant candidateBlocks != nil && fresh(candidateBlocks)
 //@   loop 4 invariant candidateBlocks != nil && fresh(candidateBlocks) && parent != nil && parent.Mast != nil && children == candidateRoots[parentName] && has(candidateRoots, parentName)
 //@   loop 5 invariant candidateBlocks != nil && fresh(candidateBlocks)
-//@   loop 6 invariant forall j int :: imp(0 <= j && j < len(roots), has(candidateRoots, roots[j]))
+//@   loop 5 invariant forall n string :: imp(linkIn(*s.crdt.Mast, n), !has(candidateBlocks, n))
+//@   loop 6 invariant candidateBlocks != nil && fresh(candidateBlocks)
+//@   loop 6 invariant forall j int :: imp(0 <= j && j < len(nodes), has(candidateBlocks, nodes[j]))
+//@   loop 7 invariant forall j int :: imp(0 <= j && j < len(roots), has(candidateRoots, roots[j]))
 
 // RemoveTombstones (C10, row side): an entry is purged exactly when it carries
 // a tombstone stamp strictly before the cutoff; everything else is untouched.
